@@ -133,6 +133,13 @@ func (c context) findVariable(name string, prefix string, global bool) (Variable
 		return Variable{}, false
 	}
 	variable, exists := c.variables[prefixedName]
+
+	// A function of an imported file sees the globals of its file, which are kept under their prefixed names.
+	if !exists && !global {
+		if prefixedName, err = c.buildPrefixedName(name, prefix, true, true); err == nil {
+			variable, exists = c.variables[prefixedName]
+		}
+	}
 	return variable, exists
 }
 
@@ -237,7 +244,7 @@ func (p *Parser) parse(path string, imported bool) (Program, error) {
 		h := sha256.New()
 		h.Write(source)
 
-		p.prefix = fmt.Sprintf("%x", h.Sum(nil))[0:7] // Only use the 7 first characters (inspired by Git).
+		p.prefix = "m" + fmt.Sprintf("%x", h.Sum(nil))[0:7] // Only use the 7 first characters (inspired by Git); a name must not start with a digit.
 	}
 	program, err := p.evaluateProgram()
 
